@@ -77,8 +77,11 @@ def hash_completeness(ctx, rule='A8'):
     t = FnText(ctx, fp)
     cc = ctx.prog.cls(f'{CCON}:ChoiceConstraint')
     fields = [s.target.id for s in cc.node.body if isinstance(s, ast.AnnAssign) and isinstance(s.target, ast.Name)]
+    # ... read from a constraint object somewhere in fingerprint() or a helper extracted from it
+    read = {x.attr for f_ in unit_functions(ctx.prog, fp) for x in walk_fn(f_)
+            if isinstance(x, ast.Attribute) and isinstance(x.value, ast.Name) and x.value.id not in ('self', 'cls')}
     for f in fields:
-        ctx.ob(rule, fkey(fp, rule, f'constraint-field:{f}'), f'cc.{f}' in t, fp.where,
+        ctx.ob(rule, fkey(fp, rule, f'constraint-field:{f}'), f in read, fp.where,
                f'the fingerprint of a constraint includes its field `{f}`', '')
     eq = ctx.fn(f'{DSG}.__eq__')
     rr = returns_of(eq)
@@ -148,9 +151,22 @@ def node_identity(ctx, rule='A8n'):
 
 def copy_preserves(ctx, rule='A8c'):
     fn = ctx.fn(f'{DSG}.get_for_adjusted')
-    t = FnText(ctx, fn)
-    ok = 'dec_con_map_copy = self._choice_constraints.copy()' in t or 'list(self._choice_constraints)' in t
-    ctx.ob(rule, fkey(fn, rule, 'constraint-objects-kept'), ok and '_choice_con_map=dec_con_map_copy' in t, fn.where,
+    from ..rules import shared as _shc
+    ok = False
+    for c in [c for c in walk_fn(fn) if isinstance(c, ast.Call) and norm(c.func) == 'self.__class__']:
+        for kw_arg, v, vf in _shc._effective_keywords(ctx.prog, fn, c):
+            if kw_arg != '_choice_con_map':
+                continue
+            exprs = [v]
+            if isinstance(v, ast.Name):
+                exprs = [d.value for d in walk_fn(vf) if isinstance(d, ast.Assign) and norm(d.targets[0]) == v.id]
+            # a new list holding the same constraint objects: .copy() / list(..) of the receiver's own list
+            ok = bool(exprs) and all(
+                isinstance(e, ast.Call) and 'self._choice_constraints' in norm(e) and
+                ((isinstance(e.func, ast.Attribute) and e.func.attr == 'copy' and
+                  norm(e.func.value) == 'self._choice_constraints') or
+                 (isinstance(e.func, ast.Name) and e.func.id == 'list')) for e in exprs)
+    ctx.ob(rule, fkey(fn, rule, 'constraint-objects-kept'), ok, fn.where,
            'a derived graph receives the same constraint objects (constraints hash by identity, so the copy hashes '
            'equal) in a new list', '')
     b = ctx.fn(f'{BASIC}._mod_graph_adjust_kwargs')
